@@ -30,18 +30,57 @@ const (
 // every success path goes on to schedule its release at CreatedAt+Duration of that same shard.
 func ruleSchedShard(r *core.Run) {
 	n := 0
-	for _, f := range r.P.SortedFuncs(r.ConsensusFuncs()) {
-		if r.P.IsGenerated(f) {
-			continue
-		}
-		res := r.Resolver(f)
-		var starts []*ssa.Store
+	// helpers that (re)start a period through a pointer parameter and leave the scheduling to their caller
+	periodStores := func(f *ssa.Function) (all []ssa.Instruction, viaParam bool) {
+		viaParam = true
 		for _, b := range f.Blocks {
 			for _, ins := range b.Instrs {
 				if st, ok := ins.(*ssa.Store); ok {
 					fp := fieldPath(st.Addr)
 					if fp == "order/types.Shard.CreatedAt" || fp == "order/types.Shard.Duration" {
-						starts = append(starts, st)
+						all = append(all, st)
+						if fa, ok := st.Addr.(*ssa.FieldAddr); !ok {
+							viaParam = false
+						} else if _, isParam := fa.X.(*ssa.Parameter); !isParam {
+							viaParam = false
+						}
+					}
+				}
+			}
+		}
+		return
+	}
+	helpers := map[*ssa.Function]bool{}
+	for _, f := range r.P.SortedFuncs(r.ConsensusFuncs()) {
+		if r.P.IsGenerated(f) {
+			continue
+		}
+		if all, viaParam := periodStores(f); len(all) > 0 && viaParam && len(blocksCalling(r, f, fSetExpShard)) == 0 {
+			hasCaller := false
+			for _, c := range r.P.CG.In[f] {
+				if r.ConsensusFuncs()[c] {
+					hasCaller = true
+				}
+			}
+			if hasCaller {
+				helpers[f] = true
+			}
+		}
+	}
+	for _, f := range r.P.SortedFuncs(r.ConsensusFuncs()) {
+		if r.P.IsGenerated(f) || helpers[f] {
+			continue
+		}
+		res := r.Resolver(f)
+		starts, _ := periodStores(f)
+		for _, b := range f.Blocks {
+			for _, ins := range b.Instrs {
+				if c, ok := ins.(ssa.CallInstruction); ok {
+					_, cs := res.CalleeName(c.Common())
+					for _, g := range cs {
+						if helpers[g] {
+							starts = append(starts, c)
+						}
 					}
 				}
 			}
@@ -194,6 +233,8 @@ func checkC11(r *core.Run) {
 	}
 	// T-takeover
 	ruleTakeover(r)
+	r.Rule("T-lost-update: no function writes back a stale local copy of a Metadata / Shard / Order record after calling a helper that itself loaded, changed and stored that record")
+	ruleLostUpdate(r, "T-lost-update")
 	r.Rule("CAP-sched-delete: release-schedule buckets are deleted only by the consuming end-blocker")
 	ruleSchedDelete(r)
 	// T-lifetime
@@ -668,15 +709,13 @@ func checkC13(r *core.Run) {
 			k2 := core.Key("T-alias", p.fn, "alias key from the same metadata")
 			if t != nil && len(t.Args) == 1 {
 				at := normT(t.Args[0].String())
-				if strings.HasPrefix(at, `fmt.Sprintf("%s-%s-%s",[`) && strings.Contains(at, ".Owner,") && strings.Contains(at, ".Alias,") && strings.Contains(at, ".GroupId]") {
-					base := strings.TrimPrefix(at, `fmt.Sprintf("%s-%s-%s",[`)
-					base = base[:strings.Index(base, ".Owner,")]
-					if strings.Count(at, base+".") == 3 && strings.HasPrefix(base, fGetMeta+"(") {
-						r.Discharge("T-alias", k2, r.P.Pos(c.Pos()), "RemoveModel key is Owner-Alias-GroupId of the metadata record being removed")
-						continue
-					}
+				// the key is computed from the very record that is being removed (the expression itself is compared
+				// across all alias-index sites by T-aliaskey)
+				if strings.Contains(at, fGetMeta+"(") && !strings.Contains(at, "#3") {
+					r.Discharge("T-alias", k2, r.P.Pos(c.Pos()), "RemoveModel key is derived from the metadata record being removed")
+					continue
 				}
-				r.Violate("T-alias", k2, r.P.Pos(c.Pos()), "the alias entry removed is not keyed by Owner-Alias-GroupId of the metadata record that is removed: "+shorten(at))
+				r.Violate("T-alias", k2, r.P.Pos(c.Pos()), "the alias entry removed is not keyed by fields of the metadata record that is removed: "+shorten(at))
 			}
 		}
 	}
@@ -1011,7 +1050,7 @@ func ruleTakeover(r *core.Run) {
 					continue
 				}
 				vt := normT(res.Of(st.Val).String())
-				if guard.Glob("order/keeper.Keeper.GetOrderShardBySP(*.From)."+field).MatchString(vt) {
+				if guard.Glob("order/keeper.Keeper.GetOrderShardBySP(*.From)." + field).MatchString(vt) {
 					blocks[b] = true
 				}
 			}
@@ -1184,4 +1223,35 @@ func ruleSchedDelete(r *core.Run) {
 		Allowed: set("sao.EndBlock"),
 		Skip:    set("pseudo:HandleExpiredShard", "pseudo:HandleTimeoutOrder"),
 	})
+}
+
+// ruleLostUpdate (T-lost-update): list sites where a stale local copy of a
+// record is written back after a helper updated the stored record.
+func ruleLostUpdate(r *core.Run, id string, prefixes ...string) {
+	want := set(prefixes...)
+	n, scanned := 0, 0
+	for _, f := range r.P.SortedFuncs(r.ConsensusFuncs()) {
+		if r.P.IsGenerated(f) {
+			continue
+		}
+		scanned++
+		seen := map[string]bool{}
+		for _, lu := range lostUpdates(r, f) {
+			if len(want) > 0 && !want[lu.Prefix] {
+				continue
+			}
+			res := r.Resolver(f)
+			mn, _ := res.CalleeName(lu.Mid.Common())
+			bn, _ := res.CalleeName(lu.Back.Common())
+			k := core.Key(id, r.P.Name(f), lu.Prefix, mn+" then "+bn)
+			if seen[k] {
+				continue
+			}
+			seen[k] = true
+			n++
+			r.Violate(id, k, r.P.Pos(lu.Back.Pos()), fmt.Sprintf("%s reads a record of %s into a local, then calls %s (which loads, changes and stores that record itself), then writes its own stale copy back with %s: the helper's update (e.g. the enlarged duration) is lost while its side effects (e.g. the moved expiry-schedule entry) stay", r.P.Name(f), lu.Prefix, mn, bn))
+		}
+	}
+	r.Discharge(id, core.Key(id, "scope"), "", fmt.Sprintf("%d functions scanned for read / helper-writes-same-prefix / stale write-back sequences, %d found", scanned, n))
+	r.Count("lost_update_functions_scanned", scanned)
 }
